@@ -934,18 +934,21 @@ def run_c15(ctx, plan):
 # the concurrent cache under several threads (modes S and F)
 
 CONC_PROGS = {"ii": 2, "ii2": 2, "ixi": 2, "upd": 2, "rej": 2, "syncs": 2, "ia": 2, "wgt": 2, "xget": 2,
-              "ttl": 2, "tti": 2, "three": 3, "three2": 3, "burst": 2, "ttix": 2, "grow": 2, "iax": 2, "farw": 2, "farx": 2, "iasy": 2}
+              "ttl": 2, "tti": 2, "three": 3, "three2": 3, "burst": 2, "ttix": 2, "grow": 2, "iax": 2, "farw": 2, "farx": 2, "iasy": 2,
+              "all_unit": 2, "all_wgt": 2, "all_exp": 2}
 CONC_QUICK = ["ii", "upd", "rej", "ixi", "wgt", "xget", "burst", "ttix", "grow", "iax", "farx", "iasy"]
 CONC_LIGHT = ["ii", "rej", "syncs", "grow"]
 # programs replayed once more with scaled queues (flush point, read slots, write slots): small programs
 # then reach a full queue, the writers' retry loop and maintenance triggered by the flush point
 SCALED = (2, 3, 2)
 CONC_SCALED = ["burst", "ii2", "three2"]
+# "all" slices: the share of the programs whose schedules are emitted and replayed (1 / m), quick / thorough
+ALL_PICK = {"all_unit": (24, 3), "all_wgt": (60, 6), "all_exp": (60, 6)}
 
 
-def conc_constants(prog, emit, real, dev):
+def conc_constants(prog, emit, real, dev, pick=(0, 0)):
     k = {"NKeys": 2, "MaxInfo": 8, "MaxRepeats": 4, "Dev": set(dev), "Threads": CONC_PROGS[prog], "Prog": prog,
-         "Emit": emit}
+         "Emit": emit, "PickM": pick[0], "PickR": pick[1]}
     if real == "scaled":
         # the queues as small as in model checking, everything else as in the code: the real cache is
         # run with the same queue sizes through the scaled-queues hook
@@ -989,9 +992,15 @@ def conc_verdict(ctx, name, trace, beh, viol):
 def stage_conc_mc(ctx, progs):
     for prog in progs:
         name = "cmc_" + prog
-        r = V.model_check(ctx.wd, name, "MC_Conc.tla", conc_constants(prog, False, False, ()),
-                          ["Ok", "NoCrash", "NoDeadlock"], spec="FairSpec", properties=["Terminates"],
-                          workers=10, timeout=1800)
+        if prog.startswith("all_"):
+            # every program of two threads with one or two operations each (10^3 programs, 10^5-10^6
+            # states): safety only, the liveness property stays with the catalogue
+            r = V.model_check(ctx.wd, name, "MC_Conc.tla", conc_constants(prog, False, False, ()),
+                              ["Ok", "NoCrash", "NoDeadlock"], workers=12, timeout=1800)
+        else:
+            r = V.model_check(ctx.wd, name, "MC_Conc.tla", conc_constants(prog, False, False, ()),
+                              ["Ok", "NoCrash", "NoDeadlock"], spec="FairSpec", properties=["Terminates"],
+                              workers=10, timeout=1800)
         ctx.mc.append({k: r[k] for k in ("name", "distinct", "generated", "ok", "wall_s", "timeout")})
         ctx.states += r["distinct"]
         ctx.transitions += r["generated"]
@@ -1009,7 +1018,12 @@ def stage_conc_s(ctx, progs, max_per_prog, random_runs, scaled=False):
     for prog in progs:
         name = pre + prog
         cfg = os.path.join(ctx.wd, name + ".cfg")
-        V.write_cfg(cfg, constants=conc_constants(prog, True, "scaled" if scaled else True, V.SDEV), view="View")
+        pick = (0, 0)
+        if prog in ALL_PICK:
+            # a seeded share of the programs of an "all" slice (every edge of each of them)
+            m = ALL_PICK[prog][0 if ctx.tier == "quick" else 1]
+            pick = (m, ctx.seed % m)
+        V.write_cfg(cfg, constants=conc_constants(prog, True, "scaled" if scaled else True, V.SDEV, pick), view="View")
         rc, outp, wall = V.run_tlc(ctx.wd, "MC_Conc.tla", cfg, workers=1, timeout=1800, out=name + ".out")
         r = V.parse_mc(outp)
         if not r["ok"]:
@@ -1190,9 +1204,10 @@ def stage_burst(ctx, n):
 def run_conc_property(ctx):
     """C02 and C09: the properties that are about interleavings."""
     quick = ctx.tier == "quick"
-    progs = CONC_QUICK if quick else list(CONC_PROGS)
-    stage_conc_mc(ctx, progs)
+    progs = CONC_QUICK if quick else [p for p in CONC_PROGS if not p.startswith("all_")]
+    stage_conc_mc(ctx, progs + (["all_unit", "all_wgt"] if quick else ["all_unit", "all_wgt", "all_exp"]))
     stage_conc_s(ctx, progs, 400 if quick else 0, 300 if quick else 5000)
+    stage_conc_s(ctx, ["all_unit", "all_wgt", "all_exp"], 500 if quick else 20000, 0)
     stage_conc_s(ctx, CONC_SCALED, 300 if quick else 0, 150 if quick else 3000, scaled=True)
     if ctx.prop == "C02":
         stage_conc_f(ctx, 30 if quick else 600, 4, 25)
@@ -1205,7 +1220,9 @@ def stage_conc_light(ctx):
     """The concurrent clauses of the sequential properties: after every explored multi-threaded
     phase has quiesced the property must hold (counters, bound, refill, live objects)."""
     quick = ctx.tier == "quick"
-    stage_conc_s(ctx, CONC_LIGHT if quick else list(CONC_PROGS), 150 if quick else 0, 100 if quick else 3000)
+    stage_conc_s(ctx, CONC_LIGHT if quick else [p for p in CONC_PROGS if not p.startswith("all_")],
+                 150 if quick else 0, 100 if quick else 3000)
+    stage_conc_s(ctx, ["all_wgt"], 300 if quick else 10000, 0)
     if ctx.prop == "C04":
         stage_burst(ctx, 5000 if quick else 50000)
 
